@@ -109,6 +109,19 @@ fn read_call(r: &mut AsyncReader<ScriptSrc>, k: Kind, ch: &Shared, drops_left: &
     }
 }
 
+/// Between two `read` calls (after a dropped future or a surfaced transient error) the caller may change the limit. The new
+/// value admits every frame whose length prefix is still to be judged; a frame whose prefix was already accepted - possibly
+/// longer than the new value - is delivered all the same, and the frames behind it stay in step. Random walks only.
+fn maybe_move_limit(r: &mut AsyncReader<ScriptSrc>, vals: &[Val], i: usize, pos: usize, frame_start: usize, ch: &Shared) {
+    if !crate::sched::limit_moves() { return }
+    if ch.borrow_mut().choose(3) != 0 { return }
+    let prefix_done = pos >= frame_start + 4;
+    let from = if prefix_done { i + 1 } else { i };
+    let v = vals.iter().skip(from).map(|v| v.encoded().len()).max().unwrap_or(0) as u32;
+    r.set_max_len(v);
+    crate::sched::count_limit_move(prefix_done && vals.get(i).map(|x| x.encoded().len() as u32 > v).unwrap_or(false));
+}
+
 pub struct RunInfo { pub drops_mid_frame: usize, pub pendings: usize, pub errors: usize, pub polls: usize }
 
 /// Run one schedule: `vals` are the complete frames in `stream[..cut]` order; `cut` may lie inside a frame.
@@ -133,6 +146,7 @@ fn run_schedule(vals: &[Val], stream: &Rc<Vec<u8>>, complete: usize, on_boundary
                 let frame_start: usize = vals[.. i.min(vals.len())].iter().map(|v| v.frame().len()).sum();
                 if p > frame_start { drops_mid += 1 }
                 let _ = pos_before;
+                maybe_move_limit(&mut r, vals, i, p, frame_start, &ch);
                 continue
             }
             Ok(ReadOutcome::Val(v)) => {
@@ -146,6 +160,7 @@ fn run_schedule(vals: &[Val], stream: &Rc<Vec<u8>>, complete: usize, on_boundary
             }
             Ok(ReadOutcome::Err(Error::Io(e))) if crate::sched::is_transient(&e) => {
                 surfaced_errors += 1;
+                { let p = st.borrow().pos; let frame_start: usize = vals[.. i.min(vals.len())].iter().map(|v| v.frame().len()).sum(); maybe_move_limit(&mut r, vals, i, p, frame_start, &ch); }
                 if surfaced_errors > st.borrow().errors { return Err(Fail::new("error-duplicated", format!("a transient error surfaced more often than it was injected; {}", describe(&st)))) }
                 continue // reading resumes where it left off
             }
@@ -224,11 +239,14 @@ fn random_walk(g: &mut Gen, st: &mut Stats) -> CaseResult {
     // (drawn last so that earlier tapes keep their meaning) does the source scatter natively?
     let vectored = g.bool();
     crate::sched::set_vectored_src(vectored);
+    crate::sched::set_limit_moves(g.bool());
     if vectored { st.class("walk/source with native poll_read_vectored") }
     // a maximum that every frame of the walk respects: the default, the top of the u32 range, or exactly the largest frame
     let largest = vals.iter().map(|v| v.encoded().len()).max().unwrap_or(0) as u32;
     crate::sched::READER_MAX.with(|c| c.set(match g.below(8) { 0 => Some(u32::MAX), 1 => Some(u32::MAX - 3), 2 => Some(largest), 3 => Some(largest.max(1) + 1), _ => None }));
     let info = run_schedule(&vals, &stream, complete, on_boundary, ch, b)?;
+    crate::sched::set_limit_moves(false);
+    if crate::sched::take_limit_below_inflight() { st.class("walk/set_max_len below the frame in flight") }
     if info.errors > 0 { st.class(&format!("walk/transient error of kind {:?}", kind)) }
     st.class(&format!("walk/AsyncReader::{}", ctor));
     if info.drops_mid_frame > 0 { st.nontrivial(hash_of(&(&stream[.. stream.len().min(48)], stream.len(), info.polls, info.pendings, info.drops_mid_frame))) }
